@@ -87,14 +87,22 @@ def runTausN (s : State) (t : Tid) : Nat → State × Nat
       | none => (s, 0)
     else (s, 0)
 
+/-- Apply the labels of one event of thread `t`.  The plain memory accesses a thread makes between two
+library calls are located by the `T<i> @` markers of the harness (first access to the pool object
+after a scheduling point): that is where the thread's internal steps fire (`marker`).  Internal steps
+still pending when the thread's next library call arrives (no access was instrumented) fire first. -/
 def applyLabels (s : State) (preOk : Bool) (acc : List Label) : List Label → Except String (State × Bool × List Label)
   | [] => .ok (s, preOk, acc)
   | l :: ls =>
-    match step s l with
-    | some s' =>
-      let (s'', n) := runTausN s' l.tid 8
-      applyLabels s'' (preOk && pre s l) (List.replicate n ⟨l.tid, .tau⟩ ++ l :: acc) ls
-    | none => .error s!"T{l.tid} is at {pcName (s.pc l.tid)}, lock owner {s.lockOwner}, waiters {s.waiters}, queue {s.tasks}"
+    let (s0, n) := runTausN s l.tid 8
+    let acc := List.replicate n ⟨l.tid, .tau⟩ ++ acc
+    match step s0 l with
+    | some s' => applyLabels s' (preOk && pre s0 l) (l :: acc) ls
+    | none => .error s!"T{l.tid} is at {pcName (s0.pc l.tid)}, lock owner {s0.lockOwner}, waiters {s0.waiters}, queue {s0.tasks}"
+
+def marker (s : State) (acc : List Label) (t : Tid) : State × List Label :=
+  let (s', n) := runTausN s t 8
+  (s', List.replicate n ⟨t, .tau⟩ ++ acc)
 
 def feed (a : Acc) (line : String) : Acc :=
   if a.verdict.isSome then a else
@@ -108,6 +116,12 @@ def feed (a : Acc) (line : String) : Acc :=
   | "end" :: _ => { a with ended := true }
   | "FAULT" :: _ => { a with verdict := some s!"rejected at {a.nev}: the implementation faulted ({line})" }
   | "#" :: _ => a
+  | [_, "."] => a
+  | _ :: "." :: _ => a
+  | [t, "@"] =>
+    match a.st, tid? t with
+    | some s, some t => let (s', lbs) := marker s a.labels t; { a with st := some s', labels := lbs }
+    | _, _ => { a with verdict := some "bad-op (marker)" }
   | _ =>
     match a.st, labels? w with
     | none, _ => { a with verdict := some "bad-op (no cfg line)" }
